@@ -1,11 +1,14 @@
 (* C13 — compound-file streams are recovered whatever the container's physical layout.
-   Statements only; proofs are in Cfb_proofs.v.  Model, encoder and validity: Cfb.v.
-   Proved: (1) chain following for any FAT / chain / sector contents, with the cyclic case;
-   (2) recovery of a small stream through the mini FAT inside the root entry's chain;
-   (3) layout independence over the tables written by cfb_write (`…_partial`: the byte-level
-   parsing of header, DIFAT, FAT sectors, directory sectors and mini-FAT sectors back into those
-   tables is NOT proved; it is exercised by the correspondence run and by the vm_compute
-   examples below, which go through the bytes). *)
+   Statements only; proofs are in Cfb_proofs.v.  Model (of src/cfb.rs after the hardening and the
+   two C13 fixes: names decoded without BOM sniffing, zero-length entries read as empty), encoder
+   and validity: Cfb.v.
+   Proved: (1) chain following for any FAT / chain / sector contents; totality of the chain walk
+   (a cycle ends in an I/O error); (2) recovery of a small stream through the mini FAT inside the
+   root entry's chain; (3) layout independence THROUGH THE BYTES: for every container and every
+   valid layout, reading any stream of cfb_write c l gives its content (C13_layout_independent),
+   hence two containers holding the same stream read the same; the table-level `_partial`
+   statements and the byte-level round trips of each table are kept; (4) totality of Cfb::new and
+   get_stream on ANY input (for C06). *)
 From Calamine Require Import Prelude Utf16 Cfb Cfb_proofs.
 Open Scope N_scope.
 
@@ -14,31 +17,38 @@ Theorem C13_chain_follow : forall fat ss body start ids len s r,
   Chain fat start ids -> NoDup ids ->
   Inv ss body s r ->
   (forall id, In id ids -> (id + 1) * ss <= lenN body) ->
-  len <= ISIZE_MAX ->
   exists s' r',
     get_chain s start fat r len
     = Ok (trunc_spec len (concat (map (sector ss body) ids)), s', r') /\ Inv ss body s' r'.
 Proof. exact chain_follow. Qed.
 
-(* a repetition: start leads to x and x leads back to x; the loop of get_chain never ends
-   (the real code appends a sector per iteration until memory is exhausted) *)
-Theorem C13_chain_cycle_out_of_fuel : forall fat ss body start p x q,
+(* the chain walk needs no fuel and never panics, for ANY allocation table, start and reader *)
+Theorem C13_chain_total : forall s id fats r len,
+  get_chain s id fats r len <> Panic /\ get_chain s id fats r len <> OutOfFuel.
+Proof. exact chain_total. Qed.
+
+(* a repetition: start leads to x and x leads back to x; the walk ends in an I/O error
+   (before the hardening the real loop did not terminate) *)
+Theorem C13_chain_cycle_is_error : forall fat ss body start p x q,
   Path fat start p x -> Path fat x q x -> q <> [] ->
   (forall id, In id (p ++ q) -> (id + 1) * ss <= lenN body) ->
-  forall fuel s r len, Inv ss body s r -> len <= ISIZE_MAX ->
-  get_chain_loop fuel s start fat r = OutOfFuel /\
-  get_chain s start fat r len = OutOfFuel.
-Proof. exact chain_repetition_out_of_fuel. Qed.
+  forall s r len, Inv ss body s r -> get_chain s start fat r len = Err ERR_IO.
+Proof. exact chain_repetition_is_error. Qed.
 
 (* ---------------------------------------------------------------- (2) mini stream *)
 Theorem C13_mini_compose : forall (c : cfb) name d r mids,
-  find_dir name (directories c) = Some d -> d_len d < 4096 ->
+  find_dir name (directories c) = Some d -> 0 < d_len d -> d_len d < 4096 ->
   ssize (mini_sectors c) = 64 ->
   Chain (mini_fats c) (d_start d) mids -> NoDup mids ->
   (forall m, In m mids -> (m + 1) * 64 <= lenN (sdata (mini_sectors c))) ->
   get_stream c name r
   = Ok (trunc_spec (d_len d) (concat (map (sector 64 (sdata (mini_sectors c))) mids)), c, r).
 Proof. exact mini_compose. Qed.
+
+(* a zero-length entry is the empty stream, whatever its start-sector field holds *)
+Theorem C13_empty_stream : forall (c : cfb) name d r,
+  find_dir name (directories c) = Some d -> d_len d = 0 -> get_stream c name r = Ok ([], c, r).
+Proof. exact empty_stream. Qed.
 
 Theorem C13_mini_sector_in_root_chain : forall ss body rootids rlen m,
   ss = 512 \/ ss = 4096 ->
@@ -50,6 +60,30 @@ Theorem C13_mini_sector_in_root_chain : forall ss body rootids rlen m,
 Proof. exact mini_sector_in_root_chain. Qed.
 
 (* ---------------------------------------------------------------- (3) layout independence *)
+(* through the bytes: any fuel from fuel_for l = 1 + number of DIFAT sectors on *)
+Theorem C13_layout_independent : forall c l fuel, valid_layout c l -> (fuel_for l <= fuel)%nat ->
+  forall n b, In (n, b) (c_streams c) -> cfb_get_stream fuel (cfb_write c l) n = Ok b.
+Proof. exact layout_independent. Qed.
+
+Theorem C13_same_streams_same_read : forall c1 l1 c2 l2 n b,
+  valid_layout c1 l1 -> valid_layout c2 l2 -> In (n, b) (c_streams c1) -> In (n, b) (c_streams c2) ->
+  cfb_get_stream (fuel_for l1) (cfb_write c1 l1) n = cfb_get_stream (fuel_for l2) (cfb_write c2 l2) n.
+Proof. exact same_streams_same_read. Qed.
+
+(* interface for C20: the written file opens and every storage / stream name is the name of an
+   entry of the directory array (has_directory answers true) *)
+Theorem C13_written_names_listed : forall c l fuel, valid_layout c l -> (fuel_for l <= fuel)%nat ->
+  exists cf r, cfb_new fuel (cfb_write c l) = Ok (cf, r) /\
+    forall n, In n (all_names c) ->
+      (exists d, In d (directories cf) /\ d_name d = n) /\ has_directory cf n = true.
+Proof. exact written_names_listed. Qed.
+
+(* what Cfb::new returns on a written file *)
+Theorem C13_cfb_new_written : forall c l fuel, valid_layout c l -> (fuel_for l <= fuel)%nat ->
+  exists cf r, cfb_new fuel (cfb_write c l) = Ok (cf, r) /\ written_cfb c l cf r.
+Proof. exact cfb_new_written. Qed.
+
+(* the table-level statements (kept) *)
 Theorem C13_layout_independent_partial : forall c l, valid_layout c l ->
   forall n b, In (n, b) (c_streams c) ->
   forall ms r, Inv (c_ss c) (body_bytes c l) ms r ->
@@ -115,6 +149,40 @@ Theorem C13_ministream_roundtrip : forall c l s r, valid_layout c l ->
     = Ok (ministream_read c l, s', r') /\ Inv (c_ss c) (body_bytes c l) s' r'.
 Proof. exact ministream_roundtrip. Qed.
 
+Theorem C13_header_roundtrip : forall c l body, valid_layout c l ->
+  exists h, header_from_reader (header_bytes c l ++ body) = Ok (h, difat_header l, body) /\
+    h_ss h = c_ss c /\
+    h_dir_len h = (if c_ss c =? 512 then 0 else N.of_nat (length (l_dir_ids l))) /\
+    h_dir_start h = hd ENDOFCHAIN (l_dir_ids l) /\
+    h_mini_fat_len h = N.of_nat (length (l_minifat_ids l)) /\
+    h_mini_fat_start h = hd ENDOFCHAIN (l_minifat_ids l) /\
+    h_difat_start h = hd ENDOFCHAIN (l_difat_ids l).
+Proof. exact header_roundtrip. Qed.
+
+Theorem C13_difat_roundtrip : forall c l s r fuel, valid_layout c l ->
+  Inv (c_ss c) (body_bytes c l) s r -> (length (l_difat_ids l) < fuel)%nat ->
+  exists D s' r',
+    difat_loop fuel 0 s (hd ENDOFCHAIN (l_difat_ids l)) (difat_header l) r = Ok (D, s', r') /\
+    filter (fun id => id <? DIFSECT) D = l_fat_ids l /\ Inv (c_ss c) (body_bytes c l) s' r'.
+Proof. exact difat_roundtrip. Qed.
+
+Theorem C13_dirs_roundtrip : forall c l, valid_layout c l ->
+  map_outcome (fun ch => from_slice ch (c_ss c)) (chunks_exact 128 (dir_bytes c l))
+  = Ok (parsed_dirs c l).
+Proof. exact dirs_roundtrip_exact. Qed.
+
+(* ---------------------------------------------------------------- totality (for C06) *)
+(* no input at all makes the model of Cfb::new / get_stream panic; the DIFAT walk (the only loop
+   with fuel in the model) ends by itself: fuel above the number of 512-byte sectors suffices *)
+Theorem C13_no_panic_cfb_new : forall fuel file,
+  cfb_new fuel file <> Panic /\
+  (lenN file / 512 < N.of_nat fuel -> cfb_new fuel file <> OutOfFuel).
+Proof. exact cfb_new_total. Qed.
+
+Theorem C13_no_panic_get_stream : forall cf name r,
+  get_stream cf name r <> Panic /\ get_stream cf name r <> OutOfFuel.
+Proof. exact get_stream_total. Qed.
+
 (* ---------------------------------------------------------------- examples (non-vacuity) *)
 Definition ex_small : list N := map (fun i => N.of_nat i mod 251) (seq 0 100).
 Definition ex_big : list N := map (fun i => (N.of_nat i * 7 + 3) mod 256) (seq 0 5000).
@@ -127,13 +195,13 @@ Definition ex_l : layout :=
   {| l_nsect := 15; l_fat_ids := [7]; l_difat_ids := []; l_dir_ids := [3]; l_minifat_ids := [12];
      l_root_ids := [0]; l_nmini := 3;
      l_chains := [[2; 0]; [14; 2; 9; 1; 13; 4; 11; 5; 10; 6]];
-     l_slots := [2; 3; 1]; l_pad := 170; l_size_hi := 4294967295 |}.
+     l_slots := [2; 3; 1]; l_pad := 170; l_size_hi := 4294967295; l_empty_start := 0 |}.
 (* 4096-byte sectors, sequential *)
 Definition ex_l4 : layout :=
   {| l_nsect := 6; l_fat_ids := [0]; l_difat_ids := []; l_dir_ids := [1]; l_minifat_ids := [2];
      l_root_ids := [3]; l_nmini := 2;
      l_chains := [[0; 1]; [4; 5]];
-     l_slots := [1; 2; 3]; l_pad := 0; l_size_hi := 0 |}.
+     l_slots := [1; 2; 3]; l_pad := 0; l_size_hi := 0; l_empty_start := ENDOFCHAIN |}.
 
 Example C13_layout_nonvacuous : valid_layout (ex_c 512) ex_l /\ valid_layout (ex_c 4096) ex_l4.
 Proof. split; vm_compute; reflexivity. Qed.
@@ -163,7 +231,7 @@ Qed.
 
 Example C13_chain_cycle_nonvacuous :
   Path [1; 2; 1] 0 [0] 1 /\ Path [1; 2; 1] 1 [1; 2] 1 /\
-  get_chain_loop 1000 {| sdata := []; ssize := 4 |} 0 [1; 2; 1] [10;11;12;13; 20;21;22;23; 30;31;32;33] = OutOfFuel.
+  get_chain {| sdata := []; ssize := 4 |} 0 [1; 2; 1] [10;11;12;13; 20;21;22;23; 30;31;32;33] 0 = Err ERR_IO.
 Proof.
   split; [|split; [|vm_compute; reflexivity]].
   - apply Path_step with (nx := 1); [discriminate|reflexivity|constructor].
@@ -171,39 +239,47 @@ Proof.
     apply Path_step with (nx := 1); [discriminate|reflexivity|constructor].
 Qed.
 
-(* ---------------------------------------------------------------- known class 1 *)
-(* a stream whose name begins with U+FEFF: valid, but Directory::from_slice decodes the name with
-   BOM sniffing, so the entry is stored under the name without its first character and the
-   stream is not found under its own name *)
+(* ---------------------------------------------------------------- former class bom_name *)
+(* a stream whose name begins with U+FEFF, and an empty stream whose start field is 0: both were
+   misread before the fixes (BOM sniffing in Directory::from_slice; no truncation for len = 0) *)
 Definition bom_c : container :=
-  {| c_ss := 512; c_storages := []; c_streams := [([65279; 65], ex_small)] |}.
+  {| c_ss := 512; c_storages := []; c_streams := [([65279; 65], ex_small); ([69], [])] |}.
 Definition bom_l : layout :=
   {| l_nsect := 4; l_fat_ids := [0]; l_difat_ids := []; l_dir_ids := [1]; l_minifat_ids := [2];
-     l_root_ids := [3]; l_nmini := 2; l_chains := [[0; 1]]; l_slots := [1]; l_pad := 0; l_size_hi := 0 |}.
+     l_root_ids := [3]; l_nmini := 2; l_chains := [[0; 1]; []]; l_slots := [1; 3]; l_pad := 0;
+     l_size_hi := 0; l_empty_start := 0 |}.
 
-Theorem C13_refuted_bom_name : exists c l n b,
-  valid_layout c l /\ known_C13 c l = Some 1 /\ In (n, b) (c_streams c) /\
-  cfb_get_stream (fuel_for l) (cfb_write c l) n <> Ok b /\
-  cfb_get_stream (fuel_for l) (cfb_write c l) (tl n) = Ok b.
-Proof.
-  exists bom_c, bom_l, [65279; 65], ex_small.
-  split; [vm_compute; reflexivity|]. split; [vm_compute; reflexivity|].
-  split; [left; reflexivity|]. split; [vm_compute; discriminate|vm_compute; reflexivity].
-Qed.
+Example C13_bom_name_and_empty_start_example :
+  valid_layout bom_c bom_l /\
+  cfb_get_stream (fuel_for bom_l) (cfb_write bom_c bom_l) [65279; 65] = Ok ex_small /\
+  cfb_get_stream (fuel_for bom_l) (cfb_write bom_c bom_l) [69] = Ok [].
+Proof. repeat split; vm_compute; reflexivity. Qed.
 
 Check C13_chain_follow : forall fat ss body start ids len s r,
   Chain fat start ids -> NoDup ids -> Inv ss body s r ->
-  (forall id, In id ids -> (id + 1) * ss <= lenN body) -> len <= ISIZE_MAX ->
+  (forall id, In id ids -> (id + 1) * ss <= lenN body) ->
   exists s' r',
     get_chain s start fat r len
     = Ok (trunc_spec len (concat (map (sector ss body) ids)), s', r') /\ Inv ss body s' r'.
+Check C13_layout_independent : forall c l fuel, valid_layout c l -> (fuel_for l <= fuel)%nat ->
+  forall n b, In (n, b) (c_streams c) -> cfb_get_stream fuel (cfb_write c l) n = Ok b.
 Check C13_layout_independent_partial : forall c l, valid_layout c l ->
   forall n b, In (n, b) (c_streams c) ->
   forall ms r, Inv (c_ss c) (body_bytes c l) ms r ->
   exists c' r', get_stream (parsed_cfb c l ms) n r = Ok (b, c', r').
 
 Print Assumptions C13_chain_follow.
-Print Assumptions C13_chain_cycle_out_of_fuel.
+Print Assumptions C13_chain_total.
+Print Assumptions C13_chain_cycle_is_error.
+Print Assumptions C13_layout_independent.
+Print Assumptions C13_same_streams_same_read.
+Print Assumptions C13_written_names_listed.
+Print Assumptions C13_cfb_new_written.
+Print Assumptions C13_header_roundtrip.
+Print Assumptions C13_difat_roundtrip.
+Print Assumptions C13_dirs_roundtrip.
+Print Assumptions C13_no_panic_cfb_new.
+Print Assumptions C13_no_panic_get_stream.
 Print Assumptions C13_mini_compose.
 Print Assumptions C13_mini_sector_in_root_chain.
 Print Assumptions C13_layout_independent_partial.
@@ -219,4 +295,5 @@ Print Assumptions C13_layout_nonvacuous.
 Print Assumptions C13_bytes_roundtrip_example.
 Print Assumptions C13_chain_follow_nonvacuous.
 Print Assumptions C13_chain_cycle_nonvacuous.
-Print Assumptions C13_refuted_bom_name.
+Print Assumptions C13_bom_name_and_empty_start_example.
+Print Assumptions C13_empty_stream.
